@@ -104,10 +104,33 @@ Theorem C15_lp_untouched :
 Proof. exact (step_lpd B I R). Qed.
 Print Assumptions C15_lp_untouched.
 
+(* The rational LP (part of the stored LP in the automatic and manual synchronisation modes) is touched by no setter
+   other than a change of the synchronisation mode, and that change never overwrites rational data when switching
+   between MANUAL and AUTO. *)
+Theorem C15_rational_lp_untouched_by_other_setters :
+  (forall ini k v s, rat (fst (set_bool B ini k v s)) = rat s) /\
+  (forall ini k v s, rat (fst (set_real R ini k v s)) = rat s) /\
+  (forall n s, rat (set_seed n s) = rat s) /\
+  (forall ini k v s r, nth_error I k = Some r -> i_name r <> "syncmode"%string -> rat (fst (set_int I ini k v s)) = rat s).
+Proof. exact (rat_untouched_by_other_setters B I R). Qed.
+Print Assumptions C15_rational_lp_untouched_by_other_setters.
+
+Theorem C15_syncmode_switch_effect_on_rational_lp :
+  forall k r cur v s, nth_error I k = Some r -> i_name r = "syncmode"%string -> nth_error (iv s) k = Some cur -> int_valid r v = true ->
+    rat (fst (set_int I true k v s)) =
+      (if v =? cur then rat s else if v =? 0 then 0 else if v =? 1 then (if cur =? 0 then 2 else rat s)
+       else if v =? 2 then (if rat s =? 0 then 3 else rat s) else rat s).
+Proof. exact (rat_on_syncmode I). Qed.
+Print Assumptions C15_syncmode_switch_effect_on_rational_lp.
+
 (* ---- non-vacuity: the hypotheses are met by concrete, non-trivial states ---- *)
 Example C15_ex_consistent_state_exists :
   Consistent B I R (run B I R (init B I R [7]) [OInt 11 4; OReal 0 (DFin 1 (-20)); OBool 3 false]).
 Proof. apply C15_reachable_states_consistent. Qed.
+
+Example C15_ex_manual_to_auto_keeps_rational_data :
+  let s := run B I R (init B I R [7]) [OInt 15 2; OLoadLP; OInt 15 1; OInt 5 10] in rat s = 1.
+Proof. vm_compute. reflexivity. Qed.
 
 Example C15_ex_values :
   let s := run B I R (init B I R [7]) [OInt 11 4; OInt 10 2; OReal 0 DNaN; OReset; OInt 13 5] in
